@@ -29,6 +29,7 @@ def exact_eating(P, speeds):
     return X
 
 class C05(Prop):
+    layouts = True
     pid = "C05"
     sources = ["socialchoicekit/randomized_allocation.py"]
     groups = {"eat": Group("eat", "From SCK Require Import Argsort RunEat.", "RunEat.eat_case", "RunEat.chk_eat")}
@@ -80,7 +81,7 @@ class C05(Prop):
     def run(self, case):
         from socialchoicekit.randomized_allocation import SimultaneousEating, ProbabilisticSerial
         from socialchoicekit.profile_utils import StrictCompleteProfile
-        A = np.array(case["P"], dtype=(float if case.get("dtype") == "float" else np.int64))
+        A = lay(np.array(case["P"], dtype=(float if case.get("dtype") == "float" else np.int64)), case.get("layout"))
         sp = np.array([float(Fraction(s)) for s in case["speeds"]])
         A0, sp0 = A.copy(), sp.copy()
         def go():
